@@ -57,6 +57,11 @@ var ttyin *os.File
 
 const clearCode string = "\x1b[2J"
 
+// Value of previewed.version that forces a full redraw of the preview window.
+// It must never equal a version the previewer reports: those start at 1 and
+// are decremented for every clear code in the output, so 0 can be one
+const noPreviewedVersion int64 = math.MinInt64
+
 // Number of maximum focus events to process synchronously
 const maxFocusEvents = 10000
 
@@ -1847,7 +1852,7 @@ func (t *Terminal) resizeWindows(forcePreview bool, redrawBorder bool) {
 		t.pwindow = nil
 	}
 	// Reset preview version so that full redraw occurs
-	t.previewed.version = 0
+	t.previewed.version = noPreviewedVersion
 
 	bw := t.borderWidth
 	offsets := [4]int{} // TRWH
@@ -4835,7 +4840,7 @@ func (t *Terminal) Loop() error {
 							// The lines of the previous command may have been redrawn under this version
 							// while the "Loading .." message was up
 							t.previewer.pending = false
-							t.previewed.version = 0
+							t.previewed.version = noPreviewedVersion
 						}
 						if t.hasPreviewWindow() && t.previewer.following.Enabled() {
 							t.previewer.offset = util.Max(t.previewer.offset, len(t.previewer.lines)-(t.pwindow.Height()-t.activePreviewOpts.headerLines))
@@ -5173,7 +5178,7 @@ func (t *Terminal) Loop() error {
 				if t.hasPreviewWindow() {
 					t.activePreviewOpts.wrap = !t.activePreviewOpts.wrap
 					// Reset preview version so that full redraw occurs
-					t.previewed.version = 0
+					t.previewed.version = noPreviewedVersion
 					req(reqPreviewRefresh)
 				}
 			case actTransformPrompt:
@@ -6175,7 +6180,7 @@ func (t *Terminal) Loop() error {
 						req(reqPreviewRefresh)
 					}
 				case previewOptsDifferentContentLayout:
-					t.previewed.version = 0
+					t.previewed.version = noPreviewedVersion
 					req(reqPreviewRefresh)
 				}
 
